@@ -72,7 +72,9 @@ def ir_x():
     try:
         return py_x()
     except pyir.DecompileError as e:
-        raise AnalysisError(f"generated parser cannot be decompiled: {e}")
+        from .common import GeneratedShapeViolation
+        where = f"{getattr(e, 'file', PARSER_X)}:{getattr(e, 'line', 0)}"
+        raise GeneratedShapeViolation(str(e), where, f"{getattr(e, 'file', PARSER_X)}:{getattr(e, 'method', '') or 'module'}")
 
 
 def find_class(mod: ast.Module, name: str) -> ast.ClassDef:
